@@ -90,6 +90,21 @@ Proof.
 Qed.
 Print Assumptions refused_multiplexer_codes.
 
+(* ... and so is the ICMP multiplexer that cannot be made because no ICMP forwarder is set up: one 502 with the generic code,
+   nothing sent anywhere *)
+Theorem refused_icmp_multiplexer_code :
+  forall auth p raw fa hp o,
+    gate auth p (auth_info raw) = Allow fa -> o <> COk ->
+    let r := handle auth p raw true (Some ICMP) hp o in
+    a_status r = 502 /\ a_challenge r = false /\ a_warning r = 300 /\ a_egress r = false.
+Proof.
+  intros auth p raw fa hp o G NO. unfold handle. rewrite G.
+  change (dispatch true (Some ICMP)) with RIcmp. cbn iota.
+  change ICMP_REFUSED_WHEN_NOT_SET_UP with true. change ICMP_REFUSAL_CARRIES_WARNING with true. cbn iota.
+  destruct o; cbn; try contradiction; repeat split; reflexivity.
+Qed.
+Print Assumptions refused_icmp_multiplexer_code.
+
 (* the reserved authorities are matched exactly: CONNECT to them is never a host to connect to,
    any other method on them is refused with 502 and no traffic; every other authority (different
    case, a suffix, a port) is an ordinary destination *)
